@@ -15,12 +15,12 @@ Rev(s) == [i \in 1..Len(s) |-> s[Len(s) + 1 - i]]
 \* the window of n letters starting at (1-based) position i
 Sub(s, i, n) == [j \in 1..n |-> s[i + j - 1]]
 
-Min(a, b) == IF a < b THEN a ELSE b
-Max(a, b) == IF a > b THEN a ELSE b
+Min2(a, b) == IF a < b THEN a ELSE b
+Max2(a, b) == IF a > b THEN a ELSE b
 
 \* strict lexicographic order A<C<G<T on strings, a proper prefix sorting first
 LexLess(a, b) ==
-  \/ \E i \in 1..Min(Len(a), Len(b)) : a[i] < b[i] /\ \A j \in 1..(i-1) : a[j] = b[j]
+  \/ \E i \in 1..Min2(Len(a), Len(b)) : a[i] < b[i] /\ \A j \in 1..(i-1) : a[j] = b[j]
   \/ Len(a) < Len(b) /\ \A j \in 1..Len(a) : a[j] = b[j]
 
 Cmp(a, b) == IF a = b THEN "eq" ELSE IF LexLess(a, b) THEN "lt" ELSE "gt"
@@ -37,7 +37,7 @@ Pred(x, a) == [j \in 1..Len(x) |-> IF j = 1 THEN a ELSE x[j-1]]
 NKmers(s, K) == IF Len(s) >= K THEN Len(s) - K + 1 ELSE 0
 Kmers(s, K) == [i \in 1..NKmers(s, K) |-> Sub(s, i, K)]
 
-ToSet(q) == {q[i] : i \in DOMAIN q}
+SetOf(q) == {q[i] : i \in DOMAIN q}
 
 \* extension records
 NoExts == [l |-> {}, r |-> {}]
@@ -48,8 +48,8 @@ Opp(d) == IF d = "L" THEN "R" ELSE "L"
 Side(e, d) == IF d = "L" THEN e.l ELSE e.r
 
 \* sum of a function over a finite set of integers-indexed things
-RECURSIVE SumSet(_, _)
-SumSet(F(_), S) == IF S = {} THEN 0 ELSE LET x == CHOOSE x \in S : TRUE IN F(x) + SumSet(F, S \ {x})
+RECURSIVE SumOver(_, _)
+SumOver(F(_), S) == IF S = {} THEN 0 ELSE LET x == CHOOSE x \in S : TRUE IN F(x) + SumOver(F, S \ {x})
 
 \* ascending sequence of a finite set of naturals
 RECURSIVE SortSet(_)
